@@ -229,6 +229,35 @@ def oracle(ck, tier, deep):
                 ck.violation(dict(site="SPolynomial", clause="abel"), dict(rep, pixel=[i, j]),
                              f"abel[{i},{j}] = {sp.abel[i, j]:.12g}, line-of-sight integral = {wa:.12g}")
                 break
+    # … and on grids with samples almost, but not exactly, on the axis (coordinates built by np.arange / linspace arithmetic leave
+    # -2.2e-16 where 0 was meant; non-uniform grids may have a point at 1e-9): abel is the line-of-sight integral there as well —
+    # continuous in r, no sample is counted twice or dropped between the on-axis rule and the general formula
+    for it in range(6 if not deep else 60):
+        tiny = np.array([0.0, 2.2e-16, 1e-12, 1e-9, 8e-9, 3e-8, 1e-6])
+        Rg = np.concatenate([tiny, rng.uniform(0.05, 6, size=5)])
+        Cg = np.concatenate([rng.uniform(-1, 1, size=len(tiny)), rng.uniform(-1, 1, size=5)])
+        M, N = int(rng.integers(1, 4)), int(rng.integers(1, 4))
+        c = rng.normal(size=(M, N))
+        c[0, 0] = float(rng.uniform(0.5, 2))
+        rmax = float(rng.uniform(2, 8))
+        r0, s_ = (0.0, 1.0) if it % 2 == 0 else (float(rng.uniform(0, 3)), float(rng.uniform(0.5, 2)))
+        ck.count(("S.spoly-near-axis", M, N, r0 == 0), suite="S.spolynomial")
+        rep = dict(r=Rg.tolist(), cos=Cg.tolist(), c=c.tolist(), r_min=0.0, r_max=rmax, r_0=r0, s=s_)
+        try:
+            sp = quiet(SPolynomial, Rg, Cg, 0.0, rmax, c, r0, s_)
+        except Exception as e:
+            ck.violation(dict(site="SPolynomial", clause="exception"), rep, f"{type(e).__name__}: {e}")
+            continue
+        g = lambda rho, cs: sum(c[m, nn] * ((rho - r0) / s_) ** m * cs ** nn for m in range(M) for nn in range(N))
+        scale = np.abs(c).sum() * max(1.0, ((rmax + r0) / s_)) ** (M - 1)
+        for i in range(len(Rg)):
+            x, cs = float(Rg[i]), float(Cg[i])
+            y = x * cs
+            wa = abel_of(lambda rho: g(rho, y / rho if rho > 0 else 0.0), x, 0.0, rmax)
+            if abs(sp.abel[i] - wa) > 1e-6 * scale * max(1.0, rmax):
+                ck.violation(dict(site="SPolynomial", clause="abel-near-axis"), dict(rep, sample=i, r_sample=x),
+                             f"abel at r = {x:g} is {sp.abel[i]:.12g}, line-of-sight integral = {wa:.12g}")
+                break
     # PiecewiseSPolynomial = sum of its pieces (each piece is decided above), for any order of pieces, including pieces whose
     # coefficient matrix is all zero (first, middle or last); in-place scaling and copies act on func and abel separately
     for it in range(15 if not deep else 150):
@@ -416,6 +445,17 @@ def oracle(ck, tier, deep):
         dev = np.abs(pp.func - np.exp(-r * r / 2)).max()
         if dev > 1.01 * tol:
             ck.violation(dict(site="ApproxGaussian", clause="tolerance"), dict(tol=tol, deviation=float(dev)), f"ApproxGaussian({tol}) deviates by {dev:.4g} > 1.01·tol")
+        # `norm`: "the integral of the piecewise polynomial function over the whole domain" — exact piece by piece
+        from numpy.polynomial import polynomial as Pn
+        tot = 0.0
+        for rg in ag.ranges:
+            lo_, hi_, cf = float(rg[0]), float(rg[1]), np.asarray(rg[2], float)
+            r0_, s_ = (float(rg[3]), float(rg[4])) if len(rg) > 3 else (0.0, 1.0)
+            anti = Pn.polyint(cf)
+            tot += s_ * (Pn.polyval((hi_ - r0_) / s_, anti) - Pn.polyval((lo_ - r0_) / s_, anti))
+        if abs(ag.norm - tot) > 1e-12 * tot or abs(ag.norm - np.sqrt(2 * np.pi)) > 3 * tol * r[-1]:
+            ck.violation(dict(site="ApproxGaussian", clause="norm"), dict(tol=tol, norm=float(ag.norm), integral=float(tot), pieces=len(ag.ranges)),
+                         f"ApproxGaussian({tol}).norm = {ag.norm:.10g}, the integral of its {len(ag.ranges)} pieces over the whole domain is {tot:.10g} (√2π = 2.5066)")
         sc = ag.scaled(2.0, 3.0, 1.5)
         r2 = np.linspace(0, 3.0 + 1.5 * r[-1], 40001)
         pp2 = quiet(PiecewisePolynomial, r2, sc)
